@@ -102,14 +102,16 @@ CHECKS = {
                        "overwritten with garbage; later staged files deleted), up to a per-patch cap. Each resume uses a brand-new "
                        "patcher, bowl and pool and the gob-decoded checkpoint. Also ShouldSave bit patterns and chains of 2-4 interruptions. "
                        "Oracle: resumed run returns nil and the tree equals the new build; liveness: an uncompressed patch with a streamed "
-                       "series of >=4 messages must offer >=1 checkpoint."),
+                       "series of >=4 messages must offer >=1 checkpoint; and a calibrated shape (one 4-6 MiB file cut every two blocks by "
+                       "100-200KB of fresh data: >=65 messages, 3-5 MiB patch) must offer >=1 checkpoint under none, gzip (any level) and "
+                       "brotli q0/q1 - on the unchanged tree it offers >=32; brotli q>=2 offers only 1-2 and is recorded, not judged."),
         "level_note": "lost fsync (durability) is not modelled: the fault model is 'bytes after the checkpointed offset are arbitrary'; checkpoints and lags beyond the cap are sampled.",
         "rule": ("rapid draws (build pair with 1-2 multi-block heavily edited files, compression, optimized?, fresh|overlay, seed, ShouldSave "
                  "pattern, chain). evaluations = patches, sub_evaluations = sessions judged. Non-trivial: a patch with at least one resume that "
                  "has lag>0 or a damaged tail from a checkpoint inside a file (disk offset > 0). Distinct: SHA-1 of the spec."),
         "assumptions": ["a crash leaves every byte below the checkpointed offset of the in-progress file, and all earlier files, intact",
                         "a crashed run never leaves a file longer than its final length"],
-        "required_classes": {"quick": ["ck:in-overlay-file", "ck:in-bsdiff-series", "resume:lag>0", "resume:damaged-tail"],
+        "required_classes": {"quick": ["ck:in-overlay-file", "ck:in-bsdiff-series", "resume:lag>0", "resume:damaged-tail", "liveness:gzip", "liveness:brotli"],
                              "thorough": ["cell:%s/%s/%s" % (b, o, c) for b in ("fresh", "overlay") for o in ("plain", "optimized") for c in ("none", "gzip", "brotli")]
                                          + ["ck:in-overlay-file", "ck:in-bsdiff-series", "resume:lag>0", "resume:damaged-tail", "schedule:chain>=2", "schedule:pattern"]},
         "stages": [rapid("resume", "TestProp", 480, 9600, qs=16, ts=16, qt=600, tt=7200)],
